@@ -26,16 +26,17 @@ def combine(a, b):
     return (a * 31 + b) % MOD
 
 
-def regen_stages(ctx, pipe=True, fork=False):
+def regen_stages(ctx, pipe=True, fork=False, sources=False):
     """T tie for the consumer stages: regenerate Gen/PipeStages.lean / Gen/ForkStages.lean from the working tree
     (go/xlate family `stages`); a stage outside the translatable fragment is listed in `rejected` and the
     `*_gen` theorems that mention it then fail to elaborate (reported by ctx.prove as broken obligations)."""
     import os, re
     for on, out, files in ((pipe, "PipeStages.lean", ["pipe/function.go", "pipe/pipe.go"]),
-                           (fork, "ForkStages.lean", ["pipe/fork/function.go", "pipe/fork/fork.go"])):
+                           (fork, "ForkStages.lean", ["pipe/fork/function.go", "pipe/fork/fork.go"]),
+                           (sources, "PipeSources.lean", ["pipe/function.go", "pipe/pipe.go"])):
         if not on:
             continue
-        if ctx.xlate("stages", out, files) is None:
+        if ctx.xlate("sources" if out == "PipeSources.lean" else "stages", out, files) is None:
             txt = open(os.path.join(vlib.LEAN, "Golem/Gen", out)).read()
             m = re.search(r"def rejected : List String := \[(.*)\]", txt)
             rej = re.findall(r'"((?:[^"\\]|\\.)*)"', m.group(1)) if m else []
